@@ -106,11 +106,17 @@ func (p *pool) Flush()                                     {}
 func (p *pool) RegisterFilter(types.IFilter)               {}
 func (p *pool) GetPendingMaxNonce([]byte) (uint64, error) { return 0, nil }
 
-type executor struct{}
+type executor struct{ nt *Net }
 
 func (executor) BeginBlock(*types.Block, events.Fireable, *types.PartSetHeader) error { return nil }
 func (executor) ExecBlock(*types.Block, events.Fireable, *types.ExecuteResult) error  { return nil }
-func (executor) EndBlock(*types.Block, events.Fireable, *types.PartSetHeader, []*types.ValidatorAttr, *types.ValidatorSet) error {
+func (e executor) EndBlock(b *types.Block, _ events.Fireable, _ *types.PartSetHeader, _ []*types.ValidatorAttr, next *types.ValidatorSet) error {
+	// the plugins modify the next validator set in place (state/execution.go ExecBlock)
+	if vc := e.nt.Sc.ValChange; vc != nil && b.Height == vc.Height {
+		_, v := next.GetByIndex(vc.Index)
+		v.VotingPower = vc.Power
+		next.Update(v)
+	}
 	return nil
 }
 
@@ -335,7 +341,7 @@ func (nt *Net) startNode(n *Node) bool {
 	n.alive = true
 	n.writes = 0
 	nt.checkReloadedProposer(n, st)
-	st.SetBlockExecutable(executor{})
+	st.SetBlockExecutable(executor{nt})
 	store := bc.NewBlockStore(n.dbs["blockstore"], n.dbs["archive"])
 	n.ticker = pbft.NewVerifTicker()
 	n.gate = pbft.NewVerifGate()
@@ -975,9 +981,32 @@ func (nt *Net) maj23Sweep() bool {
 func (nt *Net) refValidators(h int64) *types.ValidatorSet {
 	vs := types.NewValidatorSet(cloneVals(nt.Vals))
 	for k := int64(1); k < h; k++ {
+		if vc := nt.Sc.ValChange; vc != nil && k == vc.Height {
+			_, v := vs.GetByIndex(vc.Index)
+			v.VotingPower = vc.Power
+			vs.Update(v)
+		}
 		vs.IncrementAccum(1)
 	}
 	return vs
+}
+
+// powersAt returns the voting powers (by validator index) and their sum at height h.
+func (nt *Net) powersAt(h int64) ([]int64, int64) {
+	if nt.Sc.ValChange == nil || h <= nt.Sc.ValChange.Height {
+		var t int64
+		for _, p := range nt.Sc.Powers {
+			t += p
+		}
+		return nt.Sc.Powers, t
+	}
+	ps := append([]int64{}, nt.Sc.Powers...)
+	ps[nt.Sc.ValChange.Index] = nt.Sc.ValChange.Power
+	var t int64
+	for _, p := range ps {
+		t += p
+	}
+	return ps, t
 }
 
 // checkReloadedProposer: a state loaded from disk must name the same proposer
